@@ -196,6 +196,12 @@ class ProvRDFSerializer(Serializer):
             return RDFLiteral(value.uri, datatype=XSD["anyURI"])
         elif type(value) in LITERAL_XSDTYPE_MAP:
             return RDFLiteral(value, datatype=LITERAL_XSDTYPE_MAP[type(value)])
+        elif isinstance(value, int) and not isinstance(value, bool):
+            # an instance of an int subclass (an IntEnum member, a numpy-style
+            # integer) is written like the plain int it is
+            return RDFLiteral(int(value), datatype=LITERAL_XSDTYPE_MAP[int])
+        elif isinstance(value, float):
+            return RDFLiteral(float(value), datatype=LITERAL_XSDTYPE_MAP[float])
         else:
             return RDFLiteral(value)
 
